@@ -25,8 +25,13 @@ for p in sorted(by):
 mt = ['| seeded change | check run | exit | new violation keys (first two) |', '|---|---|---|---|']
 mp = '/verif/seeded/MATRIX.tsv'
 if os.path.exists(mp):
+    last = {}
     for l in open(mp):
         f = l.rstrip('\n').split('\t')
+        if len(f) >= 3:
+            last[f[0]] = f
+    for id in sorted(last):
+        f = last[id]
         if len(f) < 3:
             continue
         keys = [x for x in (f[3] if len(f) > 3 else '').split('|') if x]
